@@ -213,7 +213,7 @@ func runC09(c *fw.Ctx) {
 	}
 
 	// (b) generated programs
-	n := c.Pick(250, 12000)
+	n := c.Pick(800, 20000)
 	for i := 0; i < n; i++ {
 		if !c.Mine(i) {
 			continue
